@@ -70,6 +70,7 @@ def run(ctx):
              "f6_sanity_only_in_generated": 0, "kernel_rejected": 0, "go_fillrandom_values": 0, "budget_skips": 0,
              "verdicts_tl1": {}, "verdicts_tl2": {}}
     mism, bad, samples, unit_errors, unsupported = [], [], [], [], []
+    distinct = set()     # distinct (schema, format, type, input) accepted by both implementations with identical re-written bytes
     lock = threading.Lock()
     rngs = {u.name: random.Random(ctx.rng.getrandbits(64)) for u in units}
 
@@ -100,6 +101,7 @@ def run(ctx):
             n, _, v = p.partition("=")
             supported[n] = v
         uerr, ubad, umism, uunsup = [], [], [], []
+        udist = set()
         s_ = {k: 0 for k in stats if not k.startswith("verdicts")}
         s_["schemas"] = 1
         vt1, vt2 = {}, {}
@@ -181,6 +183,8 @@ def run(ctx):
             if g == i:
                 if m == g:
                     s_["tl1_three_way_equal"] += 1
+                    if g.startswith("ok"):
+                        udist.add((u.name, 1, name, inp[3]))
                 else:
                     umism.append((u.name, l, m, g))
             elif u.san and g == m and i == m_0 and m != m_0:
@@ -227,6 +231,8 @@ def run(ctx):
                     vt2[g.split(" ")[0]] = vt2.get(g.split(" ")[0], 0) + 1
                     if g == i:
                         s_["tl2_two_way_equal"] += 1
+                        if g.startswith("ok"):
+                            udist.add((u.name, 2, name, h))
                     else:
                         ubad.append((u.name, l, f"generated={trunc(g, 80)} interpreter={trunc(i, 80)}",
                                      tl2_sig(u, name, g, i), f"TL2 ({k}): generated code and interpreter differ"))
@@ -237,6 +243,7 @@ def run(ctx):
                 stats["verdicts_tl1"][k] = stats["verdicts_tl1"].get(k, 0) + v
             for k, v in vt2.items():
                 stats["verdicts_tl2"][k] = stats["verdicts_tl2"].get(k, 0) + v
+            distinct.update(udist)
             unit_errors.extend(uerr)
             bad.extend(ubad)
             mism.extend(umism)
@@ -277,8 +284,8 @@ def run(ctx):
                          "axioms: " + (", ".join(thm["axioms"]) if thm["axioms"] else "none (every theorem closed under the global context)")],
         "theorems": thm["statements"], "assumptions_per_theorem": thm["assumptions"],
         "evaluations": stats["tl1_valid_inputs"] + stats["tl1_mutated_inputs"] + stats["tl2_valid_inputs"] + stats["tl2_mutated_inputs"],
-        "distinct_nontrivial": stats["tl1_three_way_equal"] + stats["tl2_two_way_equal"],
-        "rule": "per schema (repository + random schemas), per top-level object the interpreter can create: valid TL1 encodings (model writer on type-directed values, Go FillRandom) and mutated ones, "
+        "distinct_nontrivial": len(distinct),
+        "rule": "non-trivial = distinct (schema, format, type, input) ACCEPTED by both implementations with identical verdict, consumed length and re-written bytes; per schema (repository + random schemas), per top-level object the interpreter can create: valid TL1 encodings (model writer on type-directed values, Go FillRandom) and mutated ones, "
                 "each read and re-written by the extracted model (rw1), the freshly generated Go code and the interpreter (three-way: verdict, consumed length, re-written bytes); "
                 "TL2: the same values converted by the generated code plus mutations, generated code vs interpreter (two-way); "
                 "mutated TL1 inputs on which the length-sanity check decides are not given to the interpreter (it allocates `count` values before reading)",
